@@ -588,9 +588,16 @@ Tiff::append(const struct VideoFrame* frames, size_t nbytes) noexcept
             };
 
             // write
+            // A failed write stops this writer and closes the file: do not
+            // write any further, and report the failure instead of carrying on
+            // as if the frame was stored.
             write_(section_ifd, &ifd, sizeof(ifd));
-            write_(section_data, (void*)cur->data, bytes_of_image);
-            write_(section_strings, ifd_strings_.data, ifd_strings_.size);
+            if (state == DeviceState_Running)
+                write_(section_data, (void*)cur->data, bytes_of_image);
+            if (state == DeviceState_Running)
+                write_(section_strings, ifd_strings_.data, ifd_strings_.size);
+            if (state != DeviceState_Running)
+                return 0;
 
             // update markers
             last_ifd_next_offset_ = section_ifd + offsetof(ifdN_t, next);
